@@ -226,7 +226,7 @@ func (d *DefaultClientDispatcher) messagePump() {
 				}
 			}
 			// No request is currently pending -> set timer to high number
-			d.timer.Reset(defaultTimeoutTick)
+			d.resetTimer(defaultTimeoutTick)
 		case rdy = <-d.readyForDispatch:
 			// Ready flag set, keep going
 		}
@@ -243,10 +243,7 @@ func (d *DefaultClientDispatcher) messagePump() {
 			d.dispatchNextRequest()
 			rdy = false
 			// Set timer
-			if !d.timer.Stop() {
-				<-d.timer.C
-			}
-			d.timer.Reset(d.timeout)
+			d.resetTimer(d.timeout)
 		}
 	}
 }
@@ -271,17 +268,23 @@ func (d *DefaultClientDispatcher) dispatchNextRequest() {
 	log.Debugf("sent JSON message to server: %s", string(jsonMessage))
 }
 
-func (d *DefaultClientDispatcher) Pause() {
-	d.mutex.Lock()
-	defer d.mutex.Unlock()
+// resetTimer re-arms the timeout timer. An expiry that was not consumed yet must not survive: it belongs to the
+// previous arming, and the message pump would take it for the timeout of whatever is pending next. The expiry may
+// have been consumed already (the pump is handling it), so it is drained without blocking.
+func (d *DefaultClientDispatcher) resetTimer(timeout time.Duration) {
 	if !d.timer.Stop() {
-		// The message pump may have consumed the expiry already: a blocking drain would wait forever, holding the lock
 		select {
 		case <-d.timer.C:
 		default:
 		}
 	}
-	d.timer.Reset(defaultTimeoutTick)
+	d.timer.Reset(timeout)
+}
+
+func (d *DefaultClientDispatcher) Pause() {
+	d.mutex.Lock()
+	defer d.mutex.Unlock()
+	d.resetTimer(defaultTimeoutTick)
 	d.paused = true
 }
 
@@ -291,7 +294,7 @@ func (d *DefaultClientDispatcher) Resume() {
 	d.mutex.Unlock()
 	if d.pendingRequestState.HasPendingRequest() {
 		// There is a pending request already. Awaiting response, before dispatching new requests.
-		d.timer.Reset(d.timeout)
+		d.resetTimer(d.timeout)
 	} else {
 		// Can dispatch a new request. Notifying message pump.
 		d.signalReadyForDispatch()
